@@ -330,6 +330,28 @@ func c07(c *Ctx) {
 			"the threshold applied to inbound VAAs is not CalculateQuorum of the guardian-set size: "+strings.Join(fs, "; "))
 	}
 	R.Floor("C07.use.inbound", nin, 1)
+	// … and what is counted against the threshold when the node publishes is the list of
+	// signatures it puts into the VAA (those of the members of the VAA's set), not another tally
+	for _, s := range callsTo(p, a7.store) {
+		if s.Fn != a7.hObs {
+			continue
+		}
+		al, ok := s.Instr.(ssa.CallInstruction).Common().Args[1].(*ssa.Alloc)
+		if !ok {
+			continue
+		}
+		vals, _ := allocStores(al)
+		S := facts.Term(vals["Signatures"])
+		okCnt := false
+		fs := facts.Atoms(facts.At(s.Instr, nil))
+		for _, at := range fs {
+			if strings.HasPrefix(at, "N/processor.CalculateQuorum(") && strings.HasSuffix(at, " <= len("+S+")") {
+				okCnt = true
+			}
+		}
+		R.Check("C07.use", R.Key("C07.use", shortFn(s.Fn), "counts-published-signatures"), c.sitePos(p, s), "the count compared with the threshold is the length of the signature list the published VAA carries", okCnt,
+			"no fact CalculateQuorum(…) <= len("+S+"): the threshold is compared with another count (for instance every signature ever gossiped for the digest, including guardians outside the VAA's set)")
+	}
 	// no other quorum-like arithmetic: comparisons against len(x.Keys)*2/3 etc. are not searched (out of scope)
 	ep := c.Explorer()
 	ecq := must(ep.Func(pkgProcessor, "CalculateQuorum"), "pinned CalculateQuorum")
